@@ -63,6 +63,8 @@ def run(ctx):
             if u.container in ("array", "vec"):
                 rule_zero(ctx, M, u, divides)
         joinlike.rule_zero_tuple0(ctx, M, "merge", "C08.ZERO", "Ready(None)")
+        from . import common as _cm
+        ctx.require(_cm.rule_pin_utils(ctx, M, "C08.ITEM") >= 1, "utils::pin helpers")
         n = joinlike.rule_ext(ctx, M, "stream::stream_ext::StreamExt", "merge", "merge", "C08.EXT")
         ctx.require(n >= 1, "StreamExt::merge")
         na = 1 if base(cfg) == "core" else 2
